@@ -626,7 +626,8 @@ def main(ctx: Ctx) -> int:
     # every 7th generated network is rendered TWICE with the same loader objects: first without its last reaction, then -- after
     # add_reaction on the SAME Network object -- complete; the second rendering is the one that is read back and judged
     grown = {ci for ci, d in enumerate(descs) if ci % 7 == 3 and ci not in prebuilt and len(d["reactions"]) >= 2 and not d.get("rate_modifier")
-             and not d.get("ode_modifier") and not d.get("indices")}
+             and not d.get("ode_modifier") and not d.get("indices") and not d.get("cooling") and not d.get("heating_user") and not d.get("cooling_user")}
+    # (thermal processes are only selectable while their species are present: the shortened network may not serve them)
     for ci in grown:      # the reaction that is added later brings a NEW species whenever the network allows it (sizes change, not only terms)
         rs = descs[ci]["reactions"]
         for j, (r_, p_) in enumerate(rs):
